@@ -99,7 +99,9 @@ impl WordEncoder {
                 format!("Encoder init failed: {e}").into(),
             ))
         })?;
-        let normalized = words.0.replace(' ', "-");
+        // `encode_socket_addr` joins the words with hyphens; the decoder takes the
+        // space-separated form (as `NetworkAddress::from_four_words` passes it).
+        let normalized = words.0.replace('-', " ");
         let decoded = encoder.decode(&normalized).map_err(|e| {
             P2PError::Bootstrap(BootstrapError::InvalidData(
                 format!("Failed to decode four-word address: {e}").into(),
